@@ -1,13 +1,13 @@
 (* C05 — intersection, union and difference of version constraints are exact set operations.
-   Model: Model/VConstraint.v.  Proofs: Proofs/RangeSpec.v, RangeAlg.v, RangeOps.v. *)
+   Model: Model/VConstraint.v.  Proofs: Proofs/RangeSpec.v, RangeAlg.v, RangeOps.v, UnionHull.v, UnionExact.v. *)
 From Coq Require Import List Bool NArith String.
 From PC Require Import Base.Cmp Base.Result Model.Pep440 Spec.Pep440Spec Model.VConstraint
-     Proofs.VersionFacts Proofs.RangeSpec Proofs.RangeAlg Proofs.RangeOps.
+     Proofs.VersionFacts Proofs.RangeSpec Proofs.RangeAlg Proofs.RangeOps Proofs.UnionHull Proofs.UnionExact.
 Import ListNotations.
 
 (* The property at full strength (every constraint shape, the three operations), kept visible.
    [regular_c v c]: v is regular for every bound of c; [wf_c]: bounds well-formed, ranges proper. *)
-Definition regular_c (v : version) (c : vc) : bool := forallb (regular1 v) (cbounds c).
+(* regular_c is defined in Proofs/UnionHull.v: forallb (regular1 v) (cbounds c) *)
 Definition wf_c (c : vc) : bool := forallb wf (cbounds c) && forallb proper (flatten c).
 Definition C05_full_statement : Prop :=
   forall a b, wf_c a = true -> wf_c b = true ->
@@ -42,8 +42,8 @@ Theorem C05_strictly_lower_spec : forall a b v,
 Proof. exact strictly_lower_spec. Qed.
 Print Assumptions C05_strictly_lower_spec.
 
-(* Proved (partial: two VersionRange operands; union-valued operands and the union/difference
-   operations are covered by the correspondence stream and the oracle, not yet by a theorem):
+(* Proved (partial: two VersionRange operands; intersection with union-valued operands and the difference
+   operation are covered by the correspondence stream and the oracle, not yet by a theorem; union: see C05_union_exact):
    the intersection is defined — the assertion in VersionRange.intersect is unreachable — and admits
    a regular probe exactly when both operands do. *)
 Theorem C05_intersect_partial : forall lo hi i j lo' hi' i' j',
@@ -68,4 +68,35 @@ Example C05_example :
     parse_single false ">=1.0"%string = Ok (VOne a) /\ parse_single false "<2.0"%string = Ok (VOne b) /\
     wf_rng a = true /\ wf_rng b = true /\ proper a = true /\ proper b = true /\
     intersect (VOne a) (VOne b) = Ok c /\ vc_str c = Ok ">=1.0,<2.0"%string.
+Proof. do 3 eexists. repeat split; vm_compute; reflexivity. Qed.
+
+(* Proved (the union clause, every constraint shape): for operands whose bounds are well-formed, carry no local label,
+   whose ranges are proper and mark no absent bound inclusive ([goodc]; every constraint the parser builds from bounds
+   without local labels is one, and results are again — first conjunct), the union is exact on every regular probe, in the
+   implementation's own member-by-member membership [sem].  This covers single versions, ranges and unions on either
+   side, through VersionUnion.of with its sorting, look-back merging and recursion, for the fuel the model runs with.
+   [allows] is [sem] except for a union that excludes exactly one version with a local label ([allows_sem]); that
+   exception is why the first operand being a single version asks for [no_local_hole] of the second.
+   Not covered by this theorem: that union returns at all (for ranges: Proofs/UnionTotal.v, C19). *)
+Theorem C05_union_exact : forall a b c, goodc a = true -> goodc b = true ->
+  (match a with VOne (RV _) => no_local_hole b | _ => True end) ->
+  union a b = Ok c ->
+  goodc c = true /\ forall v, wf v = true -> regular_for v [a; b] = true -> sem c v = sem a v || sem b v.
+Proof. exact union_admits_exactly. Qed.
+Print Assumptions C05_union_exact.
+Theorem C05_allows_is_sem : forall c v b, no_local_hole c -> allows c v = Ok b -> b = sem c v.
+Proof. exact allows_sem. Qed.
+Print Assumptions C05_allows_is_sem.
+(* VersionUnion.of itself, for every fuel *)
+Theorem C05_union_of_exact : forall fuel cs c, forallb goodc cs = true -> vunion_of fuel cs = Ok c ->
+  goodc c = true /\ incl (cbounds c) (flat_map cbounds cs) /\
+  forall v, wf v = true -> regular_for v cs = true -> sem c v = existsb (fun x => sem x v) cs.
+Proof. intros fuel cs c G H. exact (exact_sem cs c G (vunion_of_sound fuel cs c G H)). Qed.
+Print Assumptions C05_union_of_exact.
+(* non-vacuity: parsed operands (a union and a range that bridges its members) meet the hypotheses, the union runs,
+   and the result is the single range one expects *)
+Example C05_union_example :
+  exists a b c, parse_constraint_text false false ">=1.0,<2.0 || >3.0,<=4.0"%string = Ok a /\
+    parse_constraint_text false false ">=2.0,<=3.0"%string = Ok b /\
+    goodc a = true /\ goodc b = true /\ union a b = Ok c /\ vc_str c = Ok ">=1.0,<=4.0"%string.
 Proof. do 3 eexists. repeat split; vm_compute; reflexivity. Qed.
